@@ -105,6 +105,17 @@ func VerifCert(kv map[string]string) string {
 			foreign.OwnerReferences = []metav1.OwnerReference{*metav1.NewControllerRef(other, vsGVK)}
 		}
 		objs = append(objs, foreign.DeepCopy())
+	case "ownedstale":
+		// a Certificate this VirtualServer controls, left over from an earlier secret name, whose labels are not the
+		// VirtualServer's current ones
+		pname := "s0"
+		if kv["prename"] != "" {
+			pname = kv["prename"]
+		}
+		stale := &cmapi.Certificate{ObjectMeta: metav1.ObjectMeta{Namespace: "d", Name: pname, Labels: map[string]string{"l": "stale"}},
+			Spec: cmapi.CertificateSpec{SecretName: pname, DNSNames: []string{first.Spec.Host}}}
+		stale.OwnerReferences = []metav1.OwnerReference{*metav1.NewControllerRef(first, vsGVK)}
+		objs = append(objs, stale)
 	}
 	cl, idx, sync := verifSyncOn(first, objs)
 	faultStep, faultKind := -1, ""
